@@ -16,6 +16,8 @@ CONSTANTS
     MaxChanges = 1
     MaxPend = 1
     MaxConfigs = 1
+    MaxRestores = 0
+    StaleRef = FALSE
     None = None
 INVARIANTS TypeOK
 PROPERTIES IdleEventuallyExpires
